@@ -128,6 +128,7 @@ func selftest(args []string) int {
 	verif := fs.String("verif", "/verif", "verif dir")
 	prop := fs.String("prop", "", "only mutants of this property")
 	id := fs.String("id", "", "only this mutant")
+	jobs := fs.Int("jobs", 4, "mutants checked in parallel")
 	fs.Parse(args)
 	ms, err := gov.LoadMutants(filepath.Join(*verif, "selftest", "mutants"))
 	if err != nil {
@@ -136,6 +137,7 @@ func selftest(args []string) int {
 	}
 	bad := 0
 	n := 0
+	var sel []gov.Mutant
 	for _, m := range ms {
 		if *prop != "" && m.Prop != *prop {
 			continue
@@ -143,14 +145,30 @@ func selftest(args []string) int {
 		if *id != "" && m.ID != *id {
 			continue
 		}
+		sel = append(sel, m)
+	}
+	results := make([]gov.MutantResult, len(sel))
+	sem := make(chan struct{}, *jobs)
+	done := make(chan int, len(sel))
+	for i, m := range sel {
+		go func(i int, m gov.Mutant) {
+			sem <- struct{}{}
+			results[i] = gov.RunMutant(m, *repo, *verif)
+			<-sem
+			done <- i
+		}(i, m)
+	}
+	for range sel {
+		<-done
+	}
+	for _, r := range results {
 		n++
-		r := gov.RunMutant(m, *repo, *verif)
 		st := "ok"
 		if !r.OK {
 			st = "BAD"
 			bad++
 		}
-		fmt.Printf("%-4s %-4s expect=%-4s %-40s %5.1fs %s %v\n", st, m.Prop, m.Expect, m.ID, r.Wall, r.Detail, r.Failed)
+		fmt.Printf("%-4s %-4s expect=%-4s %-40s %5.1fs %s %v\n", st, r.Mutant.Prop, r.Mutant.Expect, r.Mutant.ID, r.Wall, r.Detail, r.Failed)
 	}
 	fmt.Printf("selftest: %d mutants, %d not as expected\n", n, bad)
 	if bad > 0 {
